@@ -78,7 +78,7 @@ class Engine:
         self.max_failures = max_failures
         self.sample_every = sample_every
         # statistics
-        self.paths = self.completed = self.aborted = self.queries = self.checks = self.proved = 0
+        self.paths = self.completed = self.aborted = self.queries = self.checks = self.proved = self.knownobl = 0
         self.nontrivial = 0
         self.solver_s = 0.0
         self.resyncs = 0
@@ -329,7 +329,8 @@ class Engine:
                 # a listed known finding: remember one witness, keep exploring this path
                 if kid not in self.known_hits:
                     self.known_hits[kid] = {'what': str(what), 'sig': s_, 'inputs': self._model_inputs(model), 'choices': list(self.choices)}
-                self.proved += 1
+                self.proved += 1            # (accounting: not a new failure) ...
+                self.knownobl += 1          # ... but counted apart: refuted, by a listed known finding
                 return
         self.failures.append({'what': str(what), 'sig': sig or str(what), 'inputs': self._model_inputs(model),
                               'choices': list(self.choices)})
@@ -563,7 +564,7 @@ class Engine:
 
     def stats(self):
         return {'paths': self.paths, 'completed': self.completed, 'aborted': self.aborted, 'queries': self.queries,
-                'checks': self.checks, 'proved': self.proved, 'solver_s': round(self.solver_s, 3),
+                'checks': self.checks, 'proved': self.proved, 'knownobl': self.knownobl, 'solver_s': round(self.solver_s, 3),
                 'nontrivial': self.nontrivial, 'maxdepth': self.maxdepth, 'resyncs': self.resyncs,
                 'tags': dict(self.tags), 'cuts': sorted(self.cuts), 'incomplete': self.incomplete,
                 'wall': round(getattr(self, 'wall', 0.0), 3)}
